@@ -6,7 +6,7 @@ import ast
 from .. import AnalysisError
 from ..model import ClassInfo
 from ..rules import handler_summaries, where
-from ..summary import NODE, contains, summarize
+from ..summary import NODE, contains, content, summarize
 from .c05 import check_cse_mixin
 
 PRIM = "pymbolic.primitives"
@@ -523,7 +523,8 @@ def _entry(ctx, model):
         if ps.term != "return":
             continue
         judged = True
-        rv = ps.retval
+        # list(exprs) holds the same expressions as exprs
+        rv = content(ps.retval)
         ok_all = (rv[0] == "seq" and rv[3] == P and not rv[4]
                   and rv[2][0] == "call" and len(rv[2]) >= 5
                   and rv[2][2] == (("elem", P),))
@@ -531,8 +532,8 @@ def _entry(ctx, model):
         ok_mapper = bool(mapper) and mapper[0] == "call" and \
             mapper[1] == "CSEMapper" and len(mapper[2]) == 2
         # every expression is counted first, by one UseCountMapper
-        counted = [e for e in ps.events if e.kind == "call" and e.args == (
-            ("elem", P),) and isinstance(e.value, tuple) and e.value
+        counted = [e for e in ps.events if e.kind == "call" and content(
+            e.args) == (("elem", P),) and isinstance(e.value, tuple) and e.value
             and e.value[0] == "call" and e.value[1] == "UseCountMapper"]
         ctx.ob("P/tag_common_subexpressions/all-expressions",
                ok_all and ok_mapper and len(counted) == 1, loc,
